@@ -101,6 +101,7 @@ func runC17(p *core.Prog, r *core.Result) {
 		"R17.5 callers match whole paths with MatchString only",
 		"R17.8 the string handed to the compiled set is the walked path itself, at most prefix-stripped and separator-normalised by filepath.ToSlash: no character-rewriting function (strings.Replace*, Map, case folding, trimming of characters) lies between the file system and the match",
 		"R17.7 a glob set is applied to each path separately: no directory walk prunes a subtree (SkipDir/SkipAll) depending on a match of the directory's own path",
+		"R17.9 a glob() builtin returns a path only where that very string was matched by the include set and not matched by the exclude set: every element added to a result is added on the edge include.MatchString(x) && !exclude.MatchString(x) for the same x (no shortcut that answers a pattern from the file system, where path normalisation makes non-canonical spellings 'match')",
 		"R17.6 the compiled set is a function of the given pattern list alone (no package-level state, every successful return is the compilation of this call's pattern)",
 	}
 	r.NotDecided = []string{"Go's regexp engine implements the parsed expression (trusted)", "'.' does not match newline in Go's default mode: paths are assumed to contain no newline", "the undocumented [...] character-class pass-through"}
@@ -827,6 +828,7 @@ func runC17(p *core.Prog, r *core.Result) {
 			r.Check(mc.Method == "MatchString", "R17.5", fname(f)+"#glob-use:"+mc.Method, p.InstrPos(c.(ssa.Instruction)), "the compiled glob set is applied with MatchString to the whole path", "the compiled glob set is applied with "+mc.Method+": not a whole-path match")
 		}
 	}
+	checkGlobResults(p, r, fn)
 	r.Floor("R17.5", nUse, 1, "uses of compiled glob sets")
 	r.OK("R17.7", "module#walks-do-not-prune-on-match", "-", "checked %d uses of compiled glob sets: no walk callback returns SkipDir/SkipAll under a condition that depends on a match result (violations are listed separately)", nUse)
 }
@@ -1096,4 +1098,102 @@ func constSetPredicate(h *ssa.Function) (map[int64]bool, bool) {
 		return nil, false
 	}
 	return set, true
+}
+
+// checkGlobResults implements R17.9.
+func checkGlobResults(p *core.Prog, r *core.Result, compile *ssa.Function) {
+	nFn, nAdd := 0, 0
+	for _, f := range p.ModuleFuncs() {
+		if f.Parent() != nil {
+			continue
+		}
+		// a glob builtin compiles two sets (include, exclude)
+		var sets []ssa.Value
+		for _, c := range core.CallsTo(f, compile) {
+			if call, ok := c.(*ssa.Call); ok {
+				if e := extractOf(call, 0); e != nil {
+					sets = append(sets, e)
+				}
+			}
+		}
+		if len(sets) < 2 {
+			continue
+		}
+		nFn++
+		isSet := func(v ssa.Value) ssa.Value {
+			v = core.Unwrap(v)
+			if ld, ok := v.(*ssa.UnOp); ok && ld.Op == token.MUL {
+				if s := core.SingleStore(ld.X); s != nil {
+					v = core.Unwrap(s)
+				}
+			}
+			if fv, ok := v.(*ssa.FreeVar); ok {
+				if b := core.Binding(fv); b != nil {
+					v = core.Unwrap(b)
+				}
+			}
+			for _, s := range sets {
+				if v == s {
+					return s
+				}
+			}
+			return nil
+		}
+		k := 0
+		for _, g := range core.WithAnons(f) {
+			core.Instrs(g, func(in ssa.Instruction) {
+				call, ok := in.(*ssa.Call)
+				if !ok {
+					return
+				}
+				var elem ssa.Value
+				if core.IsMethod(call, pkgStar, "List", "Append") && len(call.Call.Args) == 2 {
+					elem = call.Call.Args[1]
+				} else if b, isB := call.Call.Value.(*ssa.Builtin); isB && b.Name() == "append" && len(call.Call.Args) == 2 {
+					if sl, ok := call.Call.Args[1].(*ssa.Slice); ok {
+						if elems, ok := tupleElemsAny(sl); ok && len(elems) == 1 {
+							if n, ok := elems[0].Type().(*types.Named); ok && (n.Obj().Name() == "Value" || n.Obj().Name() == "String") {
+								elem = elems[0]
+							}
+						}
+					}
+				}
+				if elem == nil {
+					return
+				}
+				// the string that is added
+				str := core.Unwrap(elem)
+				if cv, ok := str.(*ssa.Convert); ok {
+					str = cv.X
+				}
+				if ct, ok := str.(*ssa.ChangeType); ok {
+					str = ct.X
+				}
+				if b, ok := str.Type().Underlying().(*types.Basic); !ok || b.Info()&types.IsString == 0 {
+					return
+				}
+				k++
+				nAdd++
+				var inc, exc ssa.Value
+				for fct := range p.FactsAt(call) {
+					mc, ok := fct.Cond.(*ssa.Call)
+					if !ok || !core.IsMethod(mc, "regexp", "Regexp", "MatchString") || len(mc.Call.Args) != 2 || mc.Call.Args[1] != str {
+						continue
+					}
+					set := isSet(mc.Call.Args[0])
+					if set == nil {
+						continue
+					}
+					if fct.Val {
+						inc = set
+					} else {
+						exc = set
+					}
+				}
+				r.Check(inc != nil && exc != nil && inc != exc, "R17.9", fmt.Sprintf("%s#result-%d", fname(f), k), p.InstrPos(call), "added only where the include set matched this very string and the exclude set did not", "a path is added to the result of glob() without this very string having been matched by the include set (and rejected by the exclude set): a shortcut that asks the file system instead accepts every spelling the OS normalises ('./a.txt', 'src/../a.txt', '../outside.txt'), so the result is no longer the set of paths the patterns match, and a path the exclude set names under another spelling is returned")
+			})
+		}
+	}
+	r.Floor("R17.9", nFn, 2, "glob builtins (functions compiling an include and an exclude set)")
+	r.Floor("R17.9", nAdd, 2, "result additions in glob builtins")
 }
